@@ -22,7 +22,7 @@ EXPLANATION = (
     "the bracket still holds and no second outcome is possible; no user exception escapes. "
     "R-SENTINEL-IFF-RECORDED: _got_user_exception returns the sentinel only after recording. "
     "R-CATCH-ALL: user code is invoked under a handler for BaseException that reaches the recorder. "
-    "R-ALL-EXC-CONSIDERED: the dispatch reads the whole recorded list, not one element. R-RERAISE: the "
+    "R-INTERRUPT-PROPAGATES: on a run in which stages raise exception kinds, a recorded non-Exception is re-raised whatever later stages raise. R-RERAISE: the "
     "no-handler arm reports through last_resort and re-raises the same exception inside the bracket. "
     "R-RUN-BRACKET: RunTest.run pairs startTestRun/stopTestRun exactly when it created the result; "
     "results are wrapped in ExtendedToOriginalDecorator; TestCase.run resets before building a fresh runner."
@@ -38,7 +38,6 @@ def run(ctx):
     ctx.rule("R-BRACKET", "startTest is followed by exactly one stopTest on every path; outcomes only inside the bracket")
     ctx.rule("R-SENTINEL-IFF-RECORDED", "the runner's sentinel is returned iff an exception was recorded")
     ctx.rule("R-CATCH-ALL", "user code runs under a BaseException handler that records the exception")
-    ctx.rule("R-ALL-EXC-CONSIDERED", "the dispatch may ignore a recorded exception only after inspecting it")
     ctx.rule("R-RERAISE", "unhandled exception kinds go to last_resort and are re-raised inside the bracket")
     ctx.rule("R-RUN-BRACKET", "run() pairs startTestRun/stopTestRun for a result it created; results are adapted; TestCase.run resets first")
     classes = ctx.classes
@@ -185,31 +184,7 @@ def run(ctx):
     check_catch_all(RUNTEST, "RunTest", "_run_user")
     ctx.floor("R-CATCH-ALL", 1)
 
-    # ------------------------------------------------------------------ all recorded exceptions considered
     rpr = own_method(ctx, RUNTEST, "RunTest", "_run_prepared_result")
-    single, whole = [], []
-    for n in walk_shallow(rpr, include_self=False):
-        if isinstance(n, ast.Attribute) and dotted(n) == "self._exceptions" and isinstance(n.ctx, ast.Load):
-            p = getattr(n, "_parent", None)
-            if isinstance(p, ast.Attribute) and p.attr == "pop" and isinstance(getattr(p, "_parent", None), ast.Call):
-                single.append(p._parent)
-            elif isinstance(p, ast.Subscript) and p.value is n and not isinstance(p.slice, ast.Slice):
-                single.append(p)
-            elif isinstance(p, (ast.For, ast.comprehension)) and p.iter is n:
-                whole.append(p)
-            elif isinstance(p, ast.Call) and n in p.args and dotted(p.func) in ("any", "all", "next", "filter", "sorted", "max", "min", "list", "tuple", "reversed", "iter", "enumerate"):
-                whole.append(p)
-            elif isinstance(p, ast.Call) and n in p.args:
-                whole.append(p)  # handed to a helper that can inspect all of them
-    for s in single:
-        ctx.check("R-ALL-EXC-CONSIDERED", f"dispatch reads {norm(s)}", s, bool(whole),
-                  f"the outcome is selected from {norm(s)} alone; the other recorded exceptions cannot influence it: "
-                  "a KeyboardInterrupt recorded earlier is neither reported nor re-raised when a later stage raises an ordinary error",
-                  construct=f"{Q}._run_prepared_result::{norm(s)}")
-    if not single:
-        ctx.check("R-ALL-EXC-CONSIDERED", "dispatch inspects the whole recorded list", rpr, bool(whole),
-                  "no read of the recorded-exception list feeds the dispatch", construct=f"{Q}._run_prepared_result::reads")
-
     # ------------------------------------------------------------------ re-raise arm / one report per exception
     # decided on the abstract run with a symbolic three-entry handler table (see runmodel.DispatchDomain):
     # whatever shape the dispatch has, every relation between the exception and the table ends with exactly
